@@ -6,3 +6,4 @@ CONSTANTS
   MaxT = 1
   MaxEls = 2
 INVARIANTS AtMostOnce NeverEarly RefusedNeverRuns FinalMeansDelivered
+VIEW View
